@@ -167,6 +167,36 @@ fn main() {
             }
             std::process::exit(0);
         }
+        "DEBUG" => {
+            let mut text = String::new();
+            std::io::Read::read_to_string(&mut std::io::stdin(), &mut text).unwrap();
+            let run = pipeline::run(&text);
+            if let Some(f) = &run.flat0 {
+                println!("flat0:\n{}", f.dump());
+            }
+            if let Some(f) = &run.flat {
+                println!("flat:\n{}", f.dump());
+            }
+            match &run.stage {
+                pipeline::Stage::Ok(c) => println!("OK\n{}\ncode ok={:?}", c.part.dump(), c.code.as_ref().map(|c| c.len())),
+                pipeline::Stage::PartErr { message } => println!("PartErr {message}"),
+                pipeline::Stage::PartPanic { message } => println!("PartPanic {message}"),
+                pipeline::Stage::BuildErr(m) => println!("BuildErr {m:?}"),
+                pipeline::Stage::BuildPanic(m) => println!("BuildPanic {m}"),
+                pipeline::Stage::ElimPanic(m) => println!("ElimPanic {m}"),
+                pipeline::Stage::Adjacent => println!("Adjacent"),
+                pipeline::Stage::ParseErr(m) => println!("ParseErr {m}"),
+            }
+            println!("production: {:?}", pipeline::run_production(&text).map(|r| r.map(|(j, c)| (j.len(), c.len()))));
+            for prop in ["C18", "C19", "C20"] {
+                let out = eval_case(prop, &text, true, rep.thorough());
+                println!("{prop}: tag={} evaluated={} machinery={:?} notes={:?}", out.tag, out.evaluated, out.machinery, out.notes);
+                for (k, w) in out.viols {
+                    println!("  VIOL {k}\n{w}");
+                }
+            }
+            std::process::exit(0);
+        }
         "C17" => c17::run(&mut rep, &viols),
         "C18" => {
             rep.rule = "a case = (program of the bounded-exhaustive family, declaration order); evaluated = accepted by the flat-graph builder AND by partition_graph; distinct = distinct (program up to isomorphism, order)".into();
